@@ -17,11 +17,11 @@ open Walrus.Sem
 
 /-- replacing an imported function: the index keeps naming the same identifier (uid), which now
     runs the new body, with the old signature and parameters … -/
-theorem imported_keeps_identifier_and_signature (E E' : Env) (k : Nat) (body : SL)
-    (h : E.replaceImported k body = some E') :
+theorem imported_keeps_identifier_and_signature (E E' : Env) (k : Nat) (body : SL) (extra : List String)
+    (h : E.replaceImported k body extra = some E') :
     ∃ u fi, E.ftab[k]? = some u ∧ E.ufuncs[u]? = some fi ∧ fi.imp.isSome = true ∧ E'.ftab = E.ftab ∧
-      E'.ufuncs[u]? = some ⟨fi.sig, none, fi.lt.take fi.sig.1.length, body⟩ := by
-  unfold Env.replaceImported at h
+      E'.ufuncs[u]? = some ⟨fi.sig, none, fi.lt.take fi.sig.1.length ++ scratchLt extra, body⟩ := by
+  unfold Env.replaceImported replLt at h
   cases hk : E.ftab[k]? with
   | none => simp [hk] at h
   | some u =>
@@ -39,8 +39,8 @@ theorem imported_keeps_identifier_and_signature (E E' : Env) (k : Nat) (body : S
 /-- … every other function, the signature of every function, the index table and the type section
     are untouched: callers, element segments, exports and the start section (which all go through
     the index table) now reach the new body and nothing else changed -/
-theorem imported_changes_nothing_else (E E' : Env) (k : Nat) (body : SL)
-    (h : E.replaceImported k body = some E') :
+theorem imported_changes_nothing_else (E E' : Env) (k : Nat) (body : SL) (extra : List String)
+    (h : E.replaceImported k body extra = some E') :
     E'.types = E.types ∧ E'.ftab = E.ftab ∧ E'.usigs = E.usigs ∧ E'.ufuncs.length = E.ufuncs.length ∧
     ∀ u, E.ftab[k]? ≠ some u → E'.ufuncs[u]? = E.ufuncs[u]? := by
   unfold Env.replaceImported at h
@@ -68,17 +68,17 @@ theorem imported_changes_nothing_else (E E' : Env) (k : Nat) (body : SL)
       · cases h
 
 /-- a function that is not imported cannot be replaced this way -/
-theorem imported_only (E : Env) (k u : Nat) (body : SL) (fi : FuncInfo)
+theorem imported_only (E : Env) (k u : Nat) (body : SL) (extra : List String) (fi : FuncInfo)
     (hk : E.ftab[k]? = some u) (hu : E.ufuncs[u]? = some fi) (hl : fi.imp = none) :
-    E.replaceImported k body = none := by
+    E.replaceImported k body extra = none := by
   simp [Env.replaceImported, hk, hu, hl]
 
 /-- replacing an exported function: exactly one export entry changes (same name, now the new
     index), the index table is extended by one entry naming a new identifier, the original function
     and every existing function stay where they are — internal callers keep reaching the original —
     and the new function has the original's signature -/
-theorem exported_retargets_one_export (m m' : ModuleM) (E E' : Env) (f : Nat) (body : SL)
-    (h : replaceExported m E f body = some (m', E')) :
+theorem exported_retargets_one_export (m m' : ModuleM) (E E' : Env) (f : Nat) (body : SL) (extra : List String)
+    (h : replaceExported m E f body extra = some (m', E')) :
     ∃ ex fi, firstExportOf m f = some ex ∧ ((E.ftab[f]?).bind fun u => E.ufuncs[u]?) = some fi ∧
       m'.exports.length = m.exports.length ∧
       (∀ j, j ≠ ex → m'.exports[j]? = m.exports[j]?) ∧
@@ -86,9 +86,9 @@ theorem exported_retargets_one_export (m m' : ModuleM) (E E' : Env) (f : Nat) (b
       (∀ j, j < E.ftab.length → E'.ftab[j]? = E.ftab[j]?) ∧
       E'.ftab[E.ftab.length]? = some E.ufuncs.length ∧
       (∀ u, u < E.ufuncs.length → E'.ufuncs[u]? = E.ufuncs[u]?) ∧
-      E'.ufuncs[E.ufuncs.length]? = some ⟨fi.sig, none, fi.lt.take fi.sig.1.length, body⟩ ∧
+      E'.ufuncs[E.ufuncs.length]? = some ⟨fi.sig, none, fi.lt.take fi.sig.1.length ++ scratchLt extra, body⟩ ∧
       m'.start = m.start ∧ m'.elems = m.elems ∧ m'.code = m.code ∧ m'.imports = m.imports := by
-  unfold replaceExported at h
+  unfold replaceExported replLt at h
   cases hf : ((E.ftab[f]?).bind fun u => E.ufuncs[u]?) with
   | none => simp [hf] at h
   | some fi =>
